@@ -121,10 +121,40 @@ static int life_cmd(int n, char **a) {
     if (g_db == NULL) { printf("RET closed\n"); return 1; }
     snprintf(other, sizeof(other), "%s.bak%d", g_dir, atoi(a[1]));
     drc = ldb_destroy(other, &g_opt);
-    rc = ldb_backup(g_db, other);
+    g_nogc++; rc = ldb_backup(g_db, other); g_nogc--;
     printf("BACKUP rc=%d destroy_old=%d\n", rc, drc);
     if (rc == LDB_OK) life_scan_other("BSCAN", other);
     printf("RET %d\n", rc);
+    return 1;
+  }
+  if (!strcmp(a[0], "rebackup") && n >= 2) {
+    /* backup onto a target that ALREADY holds an earlier backup (no destroy first): refused or not, the earlier
+       backup must not be damaged; and a backup onto the source's own directory must be refused */
+    int rc, src;
+    if (g_db == NULL) { printf("RET closed\n"); return 1; }
+    snprintf(other, sizeof(other), "%s.bak%d", g_dir, atoi(a[1]));
+    g_nogc++; rc = ldb_backup(g_db, other);
+    src = ldb_backup(g_db, g_dir); g_nogc--;
+    printf("REBACKUP rc=%d self=%d\n", rc, src);
+    if (life_dir_exists(other)) life_scan_other("BSCAN", other);
+    else printf("BSCAN none\n");
+    printf("RET 0\n");
+    return 1;
+  }
+  if (!strcmp(a[0], "recopy") && n >= 2) {
+    /* ldb_copy onto an existing database: must be refused, leave the target intact and the source unlocked */
+    int rc0 = 0, rc, orc, held;
+    do_close();
+    snprintf(other, sizeof(other), "%s.cp%d", g_dir, atoi(a[1]));
+    g_nogc++;
+    if (!life_dir_exists(other)) rc0 = ldb_copy(g_dir, other, &g_opt);
+    rc = ldb_copy(g_dir, other, &g_opt);
+    g_nogc--;
+    held = life_lock_probe();
+    printf("RECOPY first=%d rc=%d held_after=%d\n", rc0, rc, held);
+    orc = do_open();
+    life_scan_other("COPYSCAN", other);
+    life_ret_open(orc);
     return 1;
   }
   if (!strcmp(a[0], "bscan") && n >= 2) {
@@ -139,7 +169,7 @@ static int life_cmd(int n, char **a) {
     do_close();
     snprintf(other, sizeof(other), "%s.cp%d", g_dir, atoi(a[1]));
     drc = ldb_destroy(other, &g_opt);
-    rc = ldb_copy(g_dir, other, &g_opt);
+    g_nogc++; rc = ldb_copy(g_dir, other, &g_opt); g_nogc--;
     printf("COPY rc=%d destroy_old=%d\n", rc, drc);
     orc = do_open();                                      /* EDIT lines of the source as usual */
     if (rc == LDB_OK) life_scan_other("COPYSCAN", other);
